@@ -248,7 +248,7 @@ pub fn run(ctx: &Ctx) -> Report
     rep.assume("scenarios contain no failing rule, so 'the next build succeeds' is owed; Distinct clock");
     rep.assume("content is exempt from the no-loss rule at the kill instant when every place it sat (followed through ruler's own renames) is a path the killed command itself was rewriting: by determinism the command was about to write the same bytes");
     let thorough = ctx.tier == Tier::Thorough;
-    let (cases, max_rules) = ctx.tier.pick((2500u32, 5usize), (30000, 8));
+    let (cases, max_rules) = ctx.tier.pick((2500u32, 5usize), (15000, 8));
     rep.absorb(drive::drive(ctx, 11, cases, || strategy(max_rules, thorough), |c, st| test_case(thorough, c, st)));
     rep
 }
